@@ -53,6 +53,7 @@ def _norm(sc):
 def _run(impl, sc, seed, frag, empty, offsets=None):
     dims = dict(sc["dims"], frag=frag, empty_rate=empty)
     sess = gen.make_session(impl, dims, seed, frag_offsets=offsets)
+    sess.sim.wrte_delay = sc["dims"].get("wrte_delay", 0.0)
     r = scen.Runner(sess, sc)
     try:
         res = r.run()
@@ -95,6 +96,16 @@ def run_case(case):
     stats = {"reads_checked": 0, "corruptions": 0, "badcmds": 0, "offsets_cut": 0, "pairs_compared": 0, "packets_compared": 0}
     if kind == "diff":
         sc = _norm(scen.gen_scenario(rng))
+        if rng.random() < 0.15:
+            # a slow device: one WRTE every 4 virtual seconds, so that operations last longer than read_timeout_s (10 s) although no single wait does;
+            # fragmentation must not matter then either
+            sc["dims"]["wrte_delay"] = 4.0
+            sc["steps"] = [st for st in sc["steps"] if st.get("size", 0) <= 5000 and st.get("n", 0) <= 5 and st.get("cls") != "large"][:4] or \
+                [{"op": "streaming_shell", "cmd": "slow", "decode": False, "cls": "ascii", "seed": "c03slow", "take": None}]
+            for st in sc["steps"]:
+                if st.get("split") == "bytes1":
+                    st["split"] = "random"
+            stats["slow_device_pairs"] = 1
         ref = _run(case["impl"], sc, case["seed"], "whole", 0.0)
         got = _run(case["impl"], sc, case["seed"], case["frag"], case["empty"])
         for m in (ref[2], got[2]):
